@@ -126,7 +126,7 @@ Section SignProofs.
     assert (Fw : Forall (wf_param K n) ps).
     { apply Forall_forall. intros p Hp. rewrite Forall_forall in F. apply ok_wf. now apply F. }
     destruct (hss_complete K n H H_len ok_ilen ok_levels ps seed msg c Hne Hlen Fw)
-      as [sig0 [pk0 [E1 [E2 E3]]]].
+      as [sig0 [pk0 [s0 [E1 [E2 [E3 _]]]]]].
     rewrite E1 in Es. rewrite EK in E2. injection E2 as <-.
     destruct (cb _); [|discriminate Es]. injection Es as <- _. exact E3.
   Qed.
@@ -151,7 +151,7 @@ Section SignProofs.
     assert (Fw : Forall (wf_param K n) ps).
     { apply Forall_forall. intros p Hp. rewrite Forall_forall in F. apply ok_wf. now apply F. }
     destruct (hss_complete K n H H_len ok_ilen ok_levels ps seed msg c Hne Hlen Fw)
-      as [sig0 [pk0 [E1 _]]].
+      as [sig0 [pk0 [s0 [E1 _]]]].
     rewrite E1, Hcb. eexists. eexists. reflexivity.
   Qed.
 
